@@ -2052,6 +2052,7 @@ func (e *AnonSymbolExpr) clearValue(ctx *hcl.EvalContext) {
 	defer e.valuesLock.Unlock()
 
 	if e.values == nil {
+		verifHook("anon.clear", e, ctx, nil)
 		return
 	}
 	if ctx == nil {
